@@ -33,7 +33,11 @@ RULE = (
     "(unweighted) and np.average / harness weighted_median (weighted), blocks by scalar spacing, (north, east) spacing or shape, both "
     "adjust modes, region inferred / padded / shrunk / shifted, center_coordinates and drop_coords on/off with 0..2 extra coordinates, "
     "inputs as 1-D / 2-D C / Fortran / strided / read-only arrays and pandas Series with shuffled integer or string index (every "
-    "array its own index). Non-trivial = at least 2 occupied blocks, a block with >= 2 members whose data differ, and an empty block "
+    "array its own index); data components float64 / float32 / int16 / int32 / int64, uniform or mixed in both orders (integer then "
+    "float64, float64 then integer, float32 with float64), integer weights; plus histories on ONE instance (region=None or given): "
+    "cloud A, another cloud (other size and bounding box), a subset, A with other data, A again, then clones taken after the calls, and "
+    "in-place histories (the same ndarrays shifted / permuted / restored between calls) - every return judged against its own arguments "
+    "and the constructor parameters compared before/after each call. Non-trivial = at least 2 occupied blocks, a block with >= 2 members whose data differ, and an empty block "
     "present; distinct = hash of (coordinates, data, weights, configuration)."
 )
 ASSUMPTIONS = [
@@ -42,16 +46,39 @@ ASSUMPTIONS = [
     "coordinates are reduced without weights (the documented behaviour) and compared with the same tolerance; block centres with 32 eps of the region bounds",
     "a weighted call needs a reduction accepting weights= ; np.mean/np.median with weights raising TypeError is counted as refused, not judged",
     "weights are positive; blocks where the weighted median sits within round-off of the half weight are skipped (either neighbour)",
+    "the reference reduces float64(values) in float64; tolerances use the float64 epsilon except for a component whose data or weights were "
+    "handed over as float32, which uses the float32 epsilon (counted as class:tolerance_from_float32_operand)",
+    "the configuration of a call is the get_params() snapshot taken before the call (region=None -> bounding box of that call's points)",
 ]
 FLOORS = {
-    "quick": {"eval:filter_layout": 950, "eval:labels_vs_reference_geometry": 950, "eval:block_value": 12000,
-              "eval:block_coordinate": 17000, "eval:sum_conserved": 55, "eval:weights_refused": 4, "distinct_nontrivial": 530,
-              "class:weights:given": 420, "class:series_input_with_custom_index": 400, "class:center_coordinates:True": 420,
-              "class:drop_coords:False": 380, "class:empty_blocks:present": 720},
-    "thorough": {"eval:filter_layout": 14000, "eval:labels_vs_reference_geometry": 14000, "eval:block_value": 190000,
-                 "eval:block_coordinate": 260000, "eval:sum_conserved": 900, "eval:weights_refused": 16, "distinct_nontrivial": 8000,
-                 "class:weights:given": 6500, "class:series_input_with_custom_index": 6000, "class:center_coordinates:True": 6300,
-                 "class:drop_coords:False": 5800, "class:empty_blocks:present": 11000},
+    "quick": {
+        "eval:filter_layout": 1000, "eval:labels_vs_reference_geometry": 1000, "eval:params_unchanged_by_filter": 1000,
+        "eval:block_value": 12800, "eval:block_coordinate": 18100, "eval:sum_conserved": 59, "eval:weights_refused": 3,
+        "distinct_nontrivial": 530, "class:weights:given": 420, "class:series_input_with_custom_index": 330,
+        "class:center_coordinates:True": 450, "class:drop_coords:False": 370, "class:empty_blocks:present": 730,
+        "class:data_dtype_present:int16": 100, "class:data_dtype_present:int32": 100, "class:data_dtype_present:int64": 100,
+        "class:data_dtype_present:float32": 180, "class:mixed_data_dtypes:integer_then_float64": 35,
+        "class:mixed_data_dtypes:float64_then_integer": 28, "class:mixed_data_dtypes:float32_then_float64": 30,
+        "class:mixed_data_dtypes:float64_then_float32": 35, "class:weights_dtype_present:int32": 69,
+        "class:weights_dtype_present:int64": 64, "class:history:reuse_calls": 130, "class:history:reuse_calls:region_none": 95,
+        "class:history:reuse_calls:region_given": 11, "class:history:reuse_calls:center_coordinates": 56,
+        "class:history:inplace_calls": 67, "class:history:inplace_calls:region_none": 41,
+        "class:history:clone_after_filter_calls": 38,
+    },
+    "thorough": {
+        "eval:filter_layout": 15000, "eval:labels_vs_reference_geometry": 15000, "eval:params_unchanged_by_filter": 15000,
+        "eval:block_value": 201200, "eval:block_coordinate": 285000, "eval:sum_conserved": 990, "eval:weights_refused": 16,
+        "distinct_nontrivial": 8200, "class:weights:given": 6700, "class:series_input_with_custom_index": 5100,
+        "class:center_coordinates:True": 6900, "class:drop_coords:False": 5800, "class:empty_blocks:present": 11200,
+        "class:data_dtype_present:int16": 1600, "class:data_dtype_present:int32": 1700, "class:data_dtype_present:int64": 1700,
+        "class:data_dtype_present:float32": 2900, "class:mixed_data_dtypes:integer_then_float64": 590,
+        "class:mixed_data_dtypes:float64_then_integer": 590, "class:mixed_data_dtypes:float32_then_float64": 570,
+        "class:mixed_data_dtypes:float64_then_float32": 550, "class:weights_dtype_present:int32": 1100,
+        "class:weights_dtype_present:int64": 1100, "class:history:reuse_calls": 2000,
+        "class:history:reuse_calls:region_none": 1500, "class:history:reuse_calls:region_given": 390,
+        "class:history:reuse_calls:center_coordinates": 1000, "class:history:inplace_calls": 1000,
+        "class:history:inplace_calls:region_none": 760, "class:history:clone_after_filter_calls": 570,
+    },
 }
 JOBS = {"quick": 1, "thorough": 16}
 CASE_TIMEOUT_S = 120
@@ -60,8 +87,8 @@ CALLS_PER_CASE = 8
 
 def plan(tier):
     if tier == "quick":
-        return collections.OrderedDict(random=190, edges=42, series=50, tiny=12, refused=3, nested=8)
-    return collections.OrderedDict(random=2800, edges=640, series=780, tiny=130, refused=14, nested=100)
+        return collections.OrderedDict(random=160, edges=36, series=42, tiny=10, refused=3, nested=8, reuse=24, inplace=14)
+    return collections.OrderedDict(random=2400, edges=540, series=640, tiny=120, refused=14, nested=100, reuse=360, inplace=210)
 
 
 def value_range(values):
@@ -81,11 +108,24 @@ def install(tap, run):
     import verde
     import verde.coordinates as vc
 
+    def pre_filter(ev):
+        return {"params": blk.snapshot_params(ev.args["self"])}
+
     def post_filter(ev):
         est = ev.args["self"]
         if type(est).__name__ != "BlockReduce":  # subclasses with their own filter are other properties' business
             return
         weights = ev.args.get("weights")
+        params = ev.pre["params"] if isinstance(ev.pre, dict) else None
+        # filter is a query: the constructor parameters (region=None included) are the same afterwards, return or raise
+        if params is not None:
+            run.evaluated("params_unchanged_by_filter")
+            changed = blk.params_changed(params, est)
+            if changed:
+                run.violation("params_unchanged_by_filter", "BlockReduce.filter rewrote constructor parameter(s) %s" % changed,
+                              {"before": {k: (getattr(v, "__name__", repr(v)) if callable(v) else v) for k, v in params.items()},
+                               "after": {k: (getattr(v, "__name__", repr(v)) if callable(v) else v) for k, v in est.get_params(deep=False).items()}},
+                              key="params:" + ",".join(changed))
         if ev.exc is not None:
             wts = blk.as_tuple(weights)
             weighted = wts is not None and not any(w is None for w in wts)
@@ -95,7 +135,8 @@ def install(tap, run):
             else:
                 run.count("filter_raised:" + type(ev.exc).__name__)
             return
-        call = blk.Call(ev)
+        call = blk.Call(ev, params)
+        est = call.cfg  # the configuration the call was handed (snapshot taken before the call)
         name, impl = blk.reference_for(est.reduction)
         for cls in call.classes():
             run.count("class:" + cls)
@@ -179,7 +220,7 @@ def install(tap, run):
             for c in range(call.ncomp):
                 total_in = math.fsum(call.data[c].tolist())
                 total_out = math.fsum(np.asarray(observed[c], dtype="float64").tolist())
-                tol = blk.value_tolerance(call.data[c], call.npoints)
+                tol = blk.value_tolerance(call.data[c], call.npoints, call.data_eps[c])
                 if np.isfinite(total_out):
                     run.observe_max("sum_error_over_tolerance", abs(total_in - total_out) / tol)
                 if not abs(total_in - total_out) <= tol:
@@ -188,24 +229,27 @@ def install(tap, run):
                     break
 
     tap.function(vc, "block_split")  # recorded only: the filter monitor reads the nested event
-    tap.method(verde.BlockReduce, "filter", post=post_filter, subclasses=False)
+    tap.method(verde.BlockReduce, "filter", pre=pre_filter, post=post_filter, subclasses=False)
 
 
 # ----------------------------------------------------------------------
 # workload
 # ----------------------------------------------------------------------
-def _fields(rng, east, north, ncomp, integer=False):
+def _fields(rng, east, north, ncomp, dtypes=None):
     out = []
     amplitude = gen.log_uniform(rng, 1e-3, 1e6)
-    for _ in range(ncomp):
+    for k in range(ncomp):
         if rng.random() < 0.6:
             d = gen.smooth_field(rng, east, north, amplitude=amplitude * rng.uniform(0.2, 5))
         else:
             d = amplitude * (rng.normal(size=east.size) + rng.choice([0.0, 3.0, 50.0]))
-        if integer:
-            d = np.round(d / amplitude * 100).astype("int64")
-        out.append(d)
+        out.append(d if dtypes is None else blk.retype(rng, d, dtypes[k]))
     return out
+
+
+def _weights(rng, size, ncomp):
+    """Per-component distinct positive weights; now and then integer-typed."""
+    return [blk.integer_weights(rng, size) if rng.random() < 0.2 else 10 ** rng.uniform(-3, 3, size) for _ in range(ncomp)]
 
 
 def _one_call(run, rng, verde, layout=None, weighted=None, edges=False, npoints=None, kind=None, reduction=None):
@@ -223,11 +267,10 @@ def _one_call(run, rng, verde, layout=None, weighted=None, edges=False, npoints=
         weighted = rng.random() < 0.4
     if reduction is None:
         reduction = WEIGHTED[int(rng.integers(0, len(WEIGHTED)))] if weighted else UNWEIGHTED[int(rng.integers(0, len(UNWEIGHTED)))]
-    integer = (not weighted) and reduction in (np.mean, np.median, np.sum, np.min, np.max) and rng.random() < 0.1
-    data = _fields(rng, east, north, ncomp, integer)
+    data = _fields(rng, east, north, ncomp, blk.choose_dtypes(rng, ncomp))
     if rng.random() < 0.03:
         data = [np.full(east.size, float(k + 1)) for k in range(ncomp)]  # a trivial (constant) case now and then
-    weights = [10 ** rng.uniform(-3, 3, east.size) for _ in range(ncomp)] if weighted else None
+    weights = _weights(rng, east.size, ncomp) if weighted else None
     n_extra = int(rng.choice([0, 1, 2], p=[.5, .3, .2]))
     extras = [gen.smooth_field(rng, east, north, amplitude=rng.uniform(1, 1e3)) + rng.choice([0.0, 1e3]) for _ in range(n_extra)]
     if rng.random() < 0.45:
@@ -258,8 +301,94 @@ def _one_call(run, rng, verde, layout=None, weighted=None, edges=False, npoints=
             "easting": east, "northing": north, "data": data, "weights": weights, "result_coordinates": result[0], "result_data": result[1]}
 
 
+def _history(run, rng, verde, inplace):
+    """
+    Several filter calls on ONE BlockReduce instance (and on clones taken after a call). Every return is judged by the monitor
+    against its own arguments: with region=None the blocks are those of that call's bounding box.
+    """
+    import sklearn.base
+
+    east, north = blk.make_points(rng, n=int(rng.integers(10, 50)), kind=str(rng.choice(["uniform", "jitter", "clusters"])))
+    kwargs = blk.history_blocks(rng, east, north)
+    ncomp = int(rng.choice([1, 2]))
+    weighted = bool(rng.random() < 0.4)
+    reduction = WEIGHTED[int(rng.integers(0, len(WEIGHTED)))] if weighted else UNWEIGHTED[int(rng.integers(0, len(UNWEIGHTED)))]
+    extra = bool(rng.random() < 0.3)
+    if extra:
+        kwargs["drop_coords"] = False
+    dtypes = blk.choose_dtypes(rng, ncomp)
+
+    def arguments(e, n):
+        data = _fields(rng, e, n, ncomp, dtypes)
+        wts = _weights(rng, e.size, ncomp) if weighted else None
+        coords = (e, n, gen.smooth_field(rng, e, n, amplitude=50.0)) if extra else (e, n)
+        return coords, (data[0] if ncomp == 1 else tuple(data)), (None if wts is None else (wts[0] if ncomp == 1 else tuple(wts)))
+
+    reducer = verde.BlockReduce(reduction, **kwargs)
+    tag = "inplace" if inplace else "reuse"
+    region_tag = "region_given" if kwargs.get("region") is not None else "region_none"
+    calls = 0
+    with warnings.catch_warnings():
+        warnings.simplefilter("ignore")
+        if not inplace:
+            first = arguments(east, north)
+            reducer.filter(*first)
+            e2, n2 = blk.other_cloud(rng, east, north)
+            second = arguments(e2, n2)
+            reducer.filter(*second)  # another bounding box, another size
+            keep = np.sort(rng.permutation(east.size)[: max(1, east.size // 2)])
+            reducer.filter(*arguments(east[keep].copy(), north[keep].copy()))  # a subset
+            shifted = arguments(east, north)
+            reducer.filter(first[0], shifted[1], shifted[2])  # same points, other data
+            reducer.filter(*first)  # the first cloud again
+            twin = sklearn.base.clone(reducer)  # a clone taken after filter calls starts from the constructor parameters
+            twin.filter(*second)
+            twin.filter(*first)
+            calls = 7
+            run.count("class:history:clone_after_filter_calls", 2)
+        else:
+            coords, data, wts = arguments(east.copy(), north.copy())
+            originals = [c.copy() for c in coords]
+            reducer.filter(coords, data, wts)
+            for step in range(3):  # the very same ndarrays (and tuple), modified in place between the calls
+                if step == 0:
+                    coords[0][:] = coords[0] * rng.uniform(1.3, 2.5) + (np.ptp(originals[0]) or 1.0) * rng.uniform(-1, 1)
+                    coords[1][:] = coords[1] * rng.uniform(0.3, 0.8) - (np.ptp(originals[1]) or 1.0) * rng.uniform(-1, 1)
+                elif step == 1:
+                    perm = rng.permutation(east.size)
+                    for c in coords:
+                        c[:] = c[perm]
+                else:
+                    for c, o in zip(coords, originals):
+                        c[:] = o
+                fresh = arguments(coords[0], coords[1])
+                for target, source in zip(data if isinstance(data, tuple) else (data,), fresh[1] if isinstance(fresh[1], tuple) else (fresh[1],)):
+                    target[:] = source
+                if wts is not None:
+                    for target in (wts if isinstance(wts, tuple) else (wts,)):
+                        target[:] = rng.integers(1, 60, target.size) if target.dtype.kind in "iu" else 10 ** rng.uniform(-3, 3, target.size)
+                reducer.filter(coords, data, wts)
+            calls = 4
+    run.count("class:history:%s_calls" % tag, calls)
+    run.count("class:history:%s_calls:%s" % (tag, region_tag), calls)
+    if kwargs["center_coordinates"]:
+        run.count("class:history:%s_calls:center_coordinates" % tag, calls)
+    return {"history": tag, "constructor": {k: v for k, v in kwargs.items()}, "reduction": getattr(reduction, "__name__", "?"),
+            "data_dtypes": dtypes, "weighted": weighted, "calls_on_one_instance": calls}
+
+
 def run_case(run, tap, stream, index, rng):
     import verde
+
+    if stream == "reuse":
+        for _ in range(2):
+            info = _history(run, rng, verde, inplace=False)
+        run.sample("reuse_history", info)
+        return
+    if stream == "inplace":
+        for _ in range(3):
+            info = _history(run, rng, verde, inplace=True)
+        return
 
     if stream == "random":
         for _ in range(CALLS_PER_CASE):
